@@ -1,5 +1,5 @@
 From AQ Require Import lib.Base model.H3Parse proofs.H3Chunk proofs.H3Split proofs.H3Loop proofs.H3Recv proofs.H3Fin proofs.H3Uni proofs.H3Table proofs.H3Push proofs.H3Hdr proofs.H3UniN proofs.H3Conn proofs.H3ConnTwo.
-From AQ Require Import model.H3Send proofs.H3Round.
+From AQ Require Import model.H3Send proofs.H3Round proofs.H3Inter.
 
 (* On the code as pinned, the events of a request stream depend on the chunking: three byte strings for which
    whole delivery and a two-chunk delivery give different normalised events (end-of-stream marker). *)
@@ -331,3 +331,28 @@ Theorem h3_roundtrip_varint : forall v rest, 0 <= v < 4611686018427387904 ->
   pull_uint_var (encode_uint_var v ++ rest) = Some (v, rest).
 Proof. exact pull_encode. Qed.
 Print Assumptions h3_roundtrip_varint.
+
+(* CROSS-STREAM INTERLEAVING of request / response (bidirectional) streams.  A schedule = a list of deliveries (stream id,
+   bytes, FIN); proj sid = the deliveries of one stream, in order.  crun = handle_event on the whole schedule (Some: every
+   delivery returned events); lrun = the parser of one stream fed its own deliveries alone.  The QPACK / validation answers
+   are the same function for every call (the streams do not share changing QPACK state: no encoder-stream data arrives
+   during the schedule; blocks that have to wait simply stay blocked).
+   PROJECTION: what the connection returns for the deliveries of stream sid is what the stream's own parser returns for
+   them, whatever was delivered to other streams in between. *)
+Theorem interleaving_projection : forall fx O tr c outs,
+  c_done c = false -> c_sent_end c = [] -> bidi tr -> crun fx O c tr = Some outs ->
+  forall sid, lrun fx O (c_client c) (fst (get_or_create c sid)) (proj sid tr) = Some (outs_of sid outs).
+Proof. exact interleave_projection. Qed.
+Print Assumptions interleaving_projection.
+
+(* ANY INTERLEAVING that preserves the order of the deliveries of each stream (forall sid, proj sid tr1 = proj sid tr2): if
+   one schedule is accepted so is the other, and stream by stream, delivery by delivery, the events returned are equal
+   (not only their normal form).  With chunking_independent per stream: the events of a connection depend neither on how
+   each stream's bytes are cut nor on how the deliveries of different streams are interleaved. *)
+Theorem interleaving_independent_streams : forall fx O tr1 tr2 c outs1,
+  c_done c = false -> c_sent_end c = [] -> bidi tr1 -> bidi tr2 ->
+  (forall sid, proj sid tr1 = proj sid tr2) ->
+  crun fx O c tr1 = Some outs1 ->
+  exists outs2, crun fx O c tr2 = Some outs2 /\ forall sid, outs_of sid outs1 = outs_of sid outs2.
+Proof. exact interleave_any. Qed.
+Print Assumptions interleaving_independent_streams.
